@@ -36,10 +36,24 @@ def _param_ids(fn):
     return {p["d"]: p for p in fn.params if p.get("w")}
 
 
-def _mentions(n, did):
+def _local_inits(fn):
+    m = {}
+    for x in fn.walk():
+        if x.get("k") == "VarDecl" and x.get("c"):
+            m[x["d"]] = x["c"][0]
+    return m
+
+
+def _mentions(n, did, inits=None, depth=0):
+    """Does the expression depend on parameter `did`, directly or through
+    locals initialised from it?"""
     for x in walk(n):
-        if x.get("k") == "DeclRefExpr" and x.get("d") == did:
-            return True
+        if x.get("k") == "DeclRefExpr":
+            if x.get("d") == did:
+                return True
+            if inits and depth < 4 and x.get("d") in inits:
+                if _mentions(inits[x["d"]], did, inits, depth + 1):
+                    return True
     return False
 
 
@@ -97,42 +111,31 @@ def relations_on(prog, fn, guards, node, did):
     """Relations `param REL expr` that hold at `node` on all paths, param = decl id.
     Each item: (rel, rhs_node, mapping or None)."""
     out = []
-    fs = guards.at(node)
-    if fs is None:
+    cs = guards.cmps(node)
+    if cs is None:
         return None
-    for cid, outcome in fs:
-        if not isinstance(outcome, bool):
+    for l, rel, r in cs:
+        ls = strip_all(l)
+        if ls.get("k") == "DeclRefExpr" and ls.get("d") == did:
+            out.append((rel, r, None))
+    for atom, truth in guards.truths(node):
+        if not truth or atom is None or not is_call(atom):
             continue
-        cond = fn.nodes.get(cid)
-        if cond is None:
+        summ = _predicate_summary(prog, fn, atom)
+        if not summ:
             continue
-        cf = cmp_fact(cond, outcome)
-        if cf:
-            l, rel, r = cf
-            ls, rs = strip_all(l), strip_all(r)
-            if ls.get("k") == "DeclRefExpr" and ls.get("d") == did:
-                out.append((rel, r, None))
-            elif rs.get("k") == "DeclRefExpr" and rs.get("d") == did:
-                out.append((flow.SWAP[rel], l, None))
-            continue
-        atom, pos = bool_atom(cond)
-        if not outcome:
-            pos = not pos
-        if atom is not None and pos and is_call(atom):
-            summ = _predicate_summary(prog, fn, atom)
-            if summ:
-                cal, conj, mapping = summ
-                for cj in conj:
-                    cf2 = cmp_fact(cj, True)
-                    if not cf2:
-                        continue
-                    l, rel, r = cf2
-                    ls, rs = strip_all(l), strip_all(r)
-                    for side, other, rr in ((ls, r, rel), (rs, l, flow.SWAP[rel])):
-                        if side.get("k") == "DeclRefExpr" and side.get("d") in mapping:
-                            arg = strip_all(mapping[side["d"]])
-                            if arg.get("k") == "DeclRefExpr" and arg.get("d") == did:
-                                out.append((rr, other, mapping))
+        cal, conj, mapping = summ
+        for cj in conj:
+            for f in flow.atomise(cj, True):
+                if f[0] != "C":
+                    continue
+                _, l, rel, r = f
+                ls, rs = strip_all(l), strip_all(r)
+                for side, other, rr in ((ls, r, rel), (rs, l, flow.SWAP[rel])):
+                    if side.get("k") == "DeclRefExpr" and side.get("d") in mapping:
+                        arg = strip_all(mapping[side["d"]])
+                        if arg.get("k") == "DeclRefExpr" and arg.get("d") == did:
+                            out.append((rr, other, mapping))
     return out
 
 
@@ -168,7 +171,9 @@ def family(prog):
 
 def rule_bounds(prog, fixture=False):
     r = RuleResult("R-C17-1", "every subscript by, or translated forwarding of, the sector argument of a "
-                   "bounded-access function is dominated by `arg < count`", floor=0 if fixture else 6)
+                   "bounded-access function is dominated by `arg < count`", floor=0 if fixture else 4)
+    if not fixture:
+        r.anchors = ["Volume::Access::read_block", "FileView::read_block", "SectorCache::"]
     fam = family(prog)
     r.info["family"] = sorted(f.qn for f in fam)
     for fn in fam:
@@ -176,7 +181,7 @@ def rule_bounds(prog, fixture=False):
         if not ps:
             continue
         g = None
-        # locals derived from a parameter by plain copy keep the obligation on the parameter
+        inits = _local_inits(fn)
         for n in fn.walk():
             sinks = []
             k = n.get("k")
@@ -191,11 +196,12 @@ def rule_bounds(prog, fixture=False):
                     continue  # at() is range-checked by the library
                 if nm == "read_block" and len(n["c"]) == 2:
                     arg = strip_all(n["c"][1])
-                    if arg.get("k") != "DeclRefExpr":  # translated, not passed through
+                    # translated (computed from the parameter), not passed through unchanged
+                    if not (arg.get("k") == "DeclRefExpr" and arg.get("d") in ps):
                         sinks.append(("forward", callee["c"][0] if callee.get("c") else None, n["c"][1]))
             for kind, obj, idx in sinks:
                 for did, p in ps.items():
-                    if not _mentions(idx, did):
+                    if not _mentions(idx, did, inits):
                         continue
                     # the parameter must not have been reassigned before the sink
                     if g is None:
@@ -263,19 +269,20 @@ def check_empty_edge_throws(prog, fn, r):
             if b.get("cond") is None:
                 continue
             cond = fn.nodes.get(b["cond"])
-            atom, pos = bool_atom(cond)
-            if atom is None or atom.get("k") != "DeclRefExpr" or atom.get("d") != did:
-                continue
             ss = cfg.succ[bid]
             if len(ss) != 2:
                 continue
-            tested = True
-            empty_succ = ss[1] if pos else ss[0]
-            if empty_succ < 0:
-                continue
-            if flow.block_paths_reach(cfg, empty_succ, {cfg.exit}, avoid=throw_blocks):
-                ok = False
-                detail = "when %s is empty the function can still return normally (no throw on that path)" % n["n"]
+            for outcome, succ in ((True, ss[0]), (False, ss[1])):
+                for f in flow.atomise(cond, outcome):
+                    if f[0] != "T" or f[2]:
+                        continue
+                    atom = strip_all(f[1])
+                    if atom.get("k") != "DeclRefExpr" or atom.get("d") != did:
+                        continue
+                    tested = True
+                    if succ >= 0 and flow.block_paths_reach(cfg, succ, {cfg.exit}, avoid=throw_blocks):
+                        ok = False
+                        detail = "when %s is empty the function can still return normally (no throw on that path)" % n["n"]
         if not tested:
             ok = False
             detail = "result of read_block is never tested for emptiness"
